@@ -17,12 +17,13 @@ Definition summ (r : result) : nat * N :=
   | RUuid u => (1%%nat, u) | RRows rs => (2%%nat, N.of_nat (length rs)) | RCount n => (3%%nat, N.of_nat n) | REmpty => (4%%nat, 0%%N)
   | RErr e => (5%%nat, match e with ERefInt => 1 | EConstraint => 2 | EDomain => 3 | ETimedOut => 4 | ENotSupported => 5 | EDupName => 6 | EOther => 7 end%%N)
   | RNull => (6%%nat, 0%%N) end.
-Fixpoint trace (S : schema) (d : dbstate) (l : list (list lop * tobs)) : list (list (nat * N) * bool * nat) :=
+Fixpoint trace (S : schema) (d : dbstate) (l : list (list nlop * tobs)) : list (list (nat * N) * bool * nat) :=
   match l with
   | [] => []
   | (lops, ob) :: l' =>
-    let ops := map mk_op lops in
-    let r := transact S d ops in
+    let nops := map mk_nop lops in
+    let ops := match expand nops with Ok o => o | _ => map n_op nops end in
+    let r := transact_named S d nops in
     let d' := commit d r in
     (map summ (fst r), match snd r with Some _ => true | None => false end,
      first_fail [ (1%%nat, results_ok S ops (fst r) (t_results ob)); (2%%nat, state_ok d' (t_state ob)); (3%%nat, refs_ok S d' (t_refs ob)) ]) :: trace S d' l'
